@@ -1,5 +1,5 @@
 import IstioModel.Common.Wire
-import IstioModel.C08.Spec
+import IstioModel.C08.Scope
 
 /-! Line-protocol driver for C08 (streams `compile`, `requests`, `tcp`). See harness/c08.
 
@@ -191,5 +191,19 @@ def step (s : DState) (toks : List String) : DState × String :=
     let r := parseReq attrs
     (s, s!"{decTok (evalFilters s.filters r)} {decTok (specDecision s.wl s.policies r)}")
   | _ => (s, "bad-op")
+
+/-- Stream `hyps` (not compared with the implementation): for every `req` line, whether the
+    hypotheses of the main theorems hold for (options, applying policies, request), whether
+    everything is translatable, and the two decisions - so that the check can report how much of the
+    generated input space the theorems cover and re-confirm their conclusion on it. -/
+def stepHyps (s : DState) (toks : List String) : DState × String :=
+  match toks with
+  | "req" :: attrs =>
+    let r := parseReq attrs
+    let sel := selectPolicies s.wl s.policies
+    (s, s!"hyps={boolTok (hypsB s.opts sel r)} tr={boolTok (translatableB s.opts sel)} " ++
+        s!"compiled={decTok (evalFilters s.filters r)} spec={decTok (specDecision s.wl s.policies r)}")
+  | "build" :: _ => let (s', _) := step s toks; (s', "built")
+  | _ => step s toks
 
 end IstioModel.C08
